@@ -1132,9 +1132,9 @@ reg("C10", ["Props.C10_flag_reads_full_reference", "Props.C10_execution_inactive
 import slice_h as H  # noqa: E402
 
 KINDS_H = {
-    "C03": ["call", "call", "exec", "exec", "setup", "setupsel", "fork"],
-    "C11": ["call", "call", "exec", "setup", "setupsel", "fork"],
-    "C15": ["call", "call", "call", "exec", "rerun", "rerun", "config", "compose", "setup"],
+    "C03": ["call", "call", "exec", "exec", "setup", "setupsel", "fork", "xmk", "xrun"],
+    "C11": ["call", "call", "exec", "setup", "setupsel", "fork", "xmk", "xrun", "xrun", "xsetup"],
+    "C15": ["call", "call", "call", "exec", "rerun", "rerun", "config", "compose", "setup", "xmk", "xrun", "xrun"],
     "C18": ["cache", "cache", "call", "setup"],
 }
 
@@ -1208,6 +1208,20 @@ def run_H(pid, tier, seed):
             if a[0] == "NOFILE":
                 failures.append(Failure("correspondence", "H-model-has-no-file", scen, dict(op=op, real=outc), slice_="H"))
                 continue
+            if op["op"] == "xrun":
+                stats["kept_executor_runs"] = stats.get("kept_executor_runs", 0) + 1
+                if (a[0] == "REFUSED") != (outc[0] == "REFUSED"):
+                    if a[0] == "REFUSED":
+                        kind, sig = ("counterexample" if pid == "C15" else "correspondence"), "used-executor-object-ran-again"
+                    else:
+                        kind, sig = "correspondence", "H-fresh-executor-object-refused"
+                    failures.append(Failure(kind, sig, scen, dict(op=op, real=outc, model=a), slice_="H"))
+                    continue
+                if a[0] == "REFUSED":
+                    stats["refused"] += 1
+                    if rec.get("entered"):
+                        failures.append(Failure("counterexample", "refused-executor-entered-nodes", scen, dict(op=op, entered=rec["entered"]), slice_="H"))
+                    continue
             m_ok = a[0] == "OK"
             ei, ri = a.index("E"), a.index("R")
             if "file" in rec and outc[0] == "OK" and m_ok:
@@ -1277,7 +1291,7 @@ def run_H(pid, tier, seed):
                     kind, sig = "counterexample", "entered-set-differs-from-selected-active-nodes"
                 failures.append(Failure(kind, sig, scen, dict(op=op, real=ent, model=m_ent), slice_="H"))
                 continue
-            if op["op"] in ("call", "exec", "rerun", "cache", "restart") and outc[1] is not None:
+            if op["op"] in ("call", "exec", "rerun", "cache", "restart", "xrun") and outc[1] is not None:
                 real_vals = [H.render(v) for v in outc[1]]
                 want = [v if v != "-" else "N" for v in m_vals]
                 if real_vals != want:
@@ -1316,7 +1330,8 @@ def with_malformed(run, kinds):
 
 reg("C13", ["Props.C13_pulled_debug_has_inputs", "Props.C13_flag_off_no_debug", "Props.C13_debug_nodes_never_influence", "Props.C12_selection_is_closure"],
     with_malformed(run_G, ["normal-on-debug"]), ASSUME_G)
-reg("C11", ["Props.C11_setup_at_most_once", "Props.C11_first_value_kept", "VM.not_entered_of_res", "Props.C11_runs_only_what_selection_needs", "Props.C11_later_executions_see_first_value"], with_malformed(run_H, ["setup-on-normal", "setup-on-arg"]), ASSUME_H)
+reg("C11", ["Props.C11_setup_at_most_once", "Props.C11_first_value_kept", "VM.not_entered_of_res", "Props.C11_runs_only_what_selection_needs", "Props.C11_later_executions_see_first_value",
+            "Props.C11_kept_executors", "Props.C11_kept_executor_sees_current_setup"], with_malformed(run_H, ["setup-on-normal", "setup-on-arg"]), ASSUME_H)
 def run_H_and_composeprobe(pid, tier, seed):
     cov, fs, _ = run_H(pid, tier, seed)
     covc, fsc, _ = run_C(pid, tier, seed)
